@@ -3118,6 +3118,10 @@ void sm9_z256_modn_from_hash(sm9_z256_t h, const uint8_t Ha[40])
 	sm9_z256_mul(r, r + 5, SM9_Z256_N_MINUS_ONE);
 	sm9_z256_sub(h, z, r);
 
+	// the Barrett quotient is computed from the top 128 bits only and can be one short
+	if (sm9_z256_cmp(h, SM9_Z256_N_MINUS_ONE) >= 0) {
+		sm9_z256_sub(h, h, SM9_Z256_N_MINUS_ONE);
+	}
 	sm9_z256_modn_add(h, h, SM9_Z256_ONE);
 }
 
